@@ -377,7 +377,7 @@ fn tag_case(i: usize) -> CaseResult {
 // ------------------------------------------------------------------------------------------------
 // negatives: text that is not a well-formed document, or a map with a non-string key
 
-const NEGATIVES: [(&str, &str); 12] = [
+const NEGATIVES: [(&str, &str); 15] = [
     ("{1: a}\n", "integer key (flow)"),
     ("1: a\n", "integer key (block)"),
     ("{[a]: b}\n", "sequence key"),
@@ -386,6 +386,9 @@ const NEGATIVES: [(&str, &str); 12] = [
     ("{true: 1}\n", "boolean key"),
     ("{1.5: x}\n", "float key"),
     ("{\"a\": [1, 2}", "mismatched brackets"),
+    ("{\"a\": 1}}", "trailing brace after the document"),
+    ("[1, 2]]", "trailing bracket after the document"),
+    ("{\"a\": 1} trailing", "trailing text after a flow document"),
     ("a: 1\n b: 2\n", "bad indentation"),
     ("a: [1, 2\n", "unterminated flow sequence"),
     ("\"unterminated\n", "unterminated string"),
